@@ -79,6 +79,7 @@ func C17(c *Ctx) {
 		Chain  map[string]int `json:"chain_depths"`
 	}
 	const maxGrowth = 16
+	const maxGrowthNest = 96
 	var mu sync.Mutex
 	var wg sync.WaitGroup
 	sem := make(chan struct{}, 8)
@@ -158,12 +159,26 @@ func C17(c *Ctx) {
 			idxs = append(idxs, v)
 		}
 		sort.Ints(idxs)
+		// PRNG loop nests (up to 6 levels): the depth legitimately differs with the position inside the nest (a few
+		// frames per level), so growth is judged between iteration 1000 and the later samples with a bound that
+		// covers every position of the nest; any per-iteration (or per-outer-iteration) growth exceeds it by orders
+		// of magnitude at n = 10^5
+		bound, from := maxGrowth, 10
+		if strings.HasPrefix(cfg, "Auto") {
+			bound, from = maxGrowthNest, 1000
+			b2, ok2 := res.Depths["1000"]
+			if !ok2 {
+				c.Rep.HarnessError(id + ": no depth sample at iteration 1000")
+				return
+			}
+			base = b2
+		}
 		worst, worstAt := 0, 0
 		line := []string{}
 		for _, ix := range idxs {
 			d := res.Depths[fmt.Sprint(ix)]
 			line = append(line, fmt.Sprintf("%d:%d", ix, d))
-			if ix >= 10 && d-base > worst {
+			if ix >= from && d-base > worst {
 				worst, worstAt = d-base, ix
 			}
 			c.Rep.Distinct(fmt.Sprintf("%s/%d", cfgKey, ix))
@@ -173,9 +188,9 @@ func C17(c *Ctx) {
 		if len(idxs) < 4 {
 			c.Rep.Inconclusive(id + ": too few depth samples")
 		}
-		if worst > maxGrowth {
+		if worst > bound {
 			c.Rep.Violate(verdict.Violation{Case: id, Sig: "depth-grows-with-iterations",
-				What:   fmt.Sprintf("%s: call-stack depth grows with the number of non-yielding iterations: depth(iteration:frames) = %s; growth since iteration 10 is %d frames at iteration %d (bound %d)", cfg, strings.Join(line, " "), worst, worstAt, maxGrowth),
+				What:   fmt.Sprintf("%s: call-stack depth grows with the number of non-yielding iterations: depth(iteration:frames) = %s; growth since iteration %d is %d frames at iteration %d (bound %d)", cfg, strings.Join(line, " "), from, worst, worstAt, bound),
 				Replay: map[string]any{"only": id}})
 		}
 	}
@@ -198,7 +213,7 @@ func C17(c *Ctx) {
 	c.Rep.Set("iterations_between_yields", n)
 	c.Rep.Set("delegation_depth", chain)
 	c.Rep.Set("growth_bound_frames", maxGrowth)
-	c.Rep.Rule = "PRNG loop nests (60 quick / 400 thorough: 1..3 levels x seven loop forms incl. loops without init clause re-entered by an outer loop, decorated with Combine halves, monadic switches / ifs holding a never-taken yield, delegation to and consumer loops over an empty generator, closures, continue after the counter advanced) + 22 hand-written loop configurations (loop bodies that advance ANOTHER generator during the non-yielding stretch: flat-map over mostly empty sub-generators, manual pull, range over another generator; compiled for/while/infinite/continue/range-int/range-slice/switch/nested (inner three-clause, inner condition-only and endless loops without init that contain the yield, three levels)/filter-over-source generators produced by the real compiler, and raw seq.For/While/Loop/Combine terms incl. one inner loop VALUE re-run by an outer loop) whose body yields only on the last of n iterations, each also in the variant that yields at the first iteration too (the non-yielding stretch then follows a yield of the same loop run); runtime.Callers depth sampled inside the loop body/condition at iterations 2,10,100,...,n; oracle: depth(i>=10) - depth(10) <= 16 frames; delegation chains d=1..D: per-level increment constant (+4). One child process per configuration (a stack overflow is fatal). distinct = configuration x sampled iteration index."
+	c.Rep.Rule = "PRNG loop nests (60 quick / 400 thorough: 1..3 levels x seven loop forms incl. loops without init clause re-entered by an outer loop, decorated with Combine halves, monadic switches / ifs holding a never-taken yield, delegation to and consumer loops over an empty generator, closures, continue after the counter advanced) + 22 hand-written loop configurations (loop bodies that advance ANOTHER generator during the non-yielding stretch: flat-map over mostly empty sub-generators, manual pull, range over another generator; compiled for/while/infinite/continue/range-int/range-slice/switch/nested (inner three-clause, inner condition-only and endless loops without init that contain the yield, three levels)/filter-over-source generators produced by the real compiler, and raw seq.For/While/Loop/Combine terms incl. one inner loop VALUE re-run by an outer loop) whose body yields only on the last of n iterations, each also in the variant that yields at the first iteration too (the non-yielding stretch then follows a yield of the same loop run); runtime.Callers depth sampled inside the loop body/condition at iterations 2,10,100,...,n; oracle: depth(i>=10) - depth(10) <= 16 frames for the hand-written configurations, depth(i>=1000) - depth(1000) <= 96 frames for the PRNG nests (the depth differs by a few frames per nesting level with the position inside the nest; at n = 10^5 any per-iteration or per-outer-iteration growth exceeds the bound by orders of magnitude); delegation chains d=1..D: per-level increment constant (+4). One child process per configuration (a stack overflow is fatal). distinct = configuration x sampled iteration index."
 	c.Rep.Assumptions = append(c.Rep.Assumptions,
 		"the unbounded 'for all n' is restated as bounded growth up to the stated n; a finite run cannot decide more",
 		"growth, not absolute depth, is judged, so refactorings that add a constant number of frames pass")
